@@ -171,10 +171,66 @@ def saveload(md, d, exts):
     return res
 
 
+def observe(t):
+    o = {"lengths": lst(t.unitcell_lengths), "angles": lst(t.unitcell_angles)}
+    for nm in ("vectors", "volumes"):
+        try:
+            o[nm] = lst(getattr(t, "unitcell_" + nm))
+        except Exception as e:  # noqa: BLE001
+            o[nm] = err(e)
+    return o
+
+
+def run_getter_history(md, h):
+    """one trajectory object, a sequence of reads / assignments / item assignments; after EVERY op all four getters are
+    recorded.  ops: ["read", which] | ["set_lengths", rows|None] | ["set_angles", rows|None] | ["set_vectors", mats|None]
+    | ["poke_lengths", f, i, value]  (t.unitcell_lengths[f, i] = value: the getter returns the stored array itself)
+    | ["poke_angles", f, i, value] | ["poke_returned_vectors"] (scales the array the vectors getter returned)"""
+    top = md.Topology()
+    ch = top.add_chain()
+    for i in range(3):
+        top.add_atom("C", md.element.carbon, top.add_residue("ALA", ch))
+    nf = h["frames"]
+    xyz = (np.random.RandomState(11).rand(nf, 3, 3) * 8).astype(np.float32)
+    f32 = lambda x: None if x is None else np.array(x, dtype=np.float32)   # noqa: E731
+    t = md.Trajectory(xyz, top, unitcell_lengths=f32(h["lengths"]), unitcell_angles=f32(h["angles"]))
+    out = []
+    for op in h["ops"]:
+        rec = {}
+        try:
+            k = op[0]
+            if k == "read":
+                if op[1] == "distances":
+                    try:
+                        rec["distances"] = md.compute_distances(t, np.array([[0, 2]]), periodic=True).ravel().astype(float).tolist()
+                    except Exception as e:  # noqa: BLE001
+                        rec["distances"] = err(e)
+                else:
+                    getattr(t, "unitcell_" + op[1])
+            elif k in ("set_lengths", "set_angles", "set_vectors"):
+                setattr(t, "unitcell_" + k[4:], f32(op[1]))
+            elif k == "poke_lengths":
+                t.unitcell_lengths[op[1], op[2]] = op[3]
+            elif k == "poke_angles":
+                t.unitcell_angles[op[1], op[2]] = op[3]
+            elif k == "poke_returned_vectors":
+                v = t.unitcell_vectors
+                if v is not None:
+                    v *= 2.0
+            rec["status"] = "ok"
+        except Exception as e:  # noqa: BLE001
+            rec["status"] = type(e).__name__
+        rec["obs"] = observe(t)
+        out.append(rec)
+    return out
+
+
 def main():
     payload = json.load(sys.stdin)
     import mdtraj as md
     out = {"cells": [run_cell(md, c) for c in payload.get("cells", [])]}
+    if payload.get("getter_histories"):
+        out["getter_histories"] = [run_getter_history(md, h) for h in payload["getter_histories"]]
     if payload.get("saveload"):
         d = tempfile.mkdtemp(prefix="c17sl-", dir=".")
         try:
